@@ -13,10 +13,13 @@ fn series(rng: &mut Rng, len: usize, small: bool) -> (Vec<f64>, &'static str) {
     let pat = *rng.pick(&NULL_PATTERNS);
     let m = null_mask(rng, pat, len);
     let style = rng.below(4);
+    // one series in four is not dyadic (k/7, k/10): running sums then carry rounding residue, so a window that is
+    // left with fewer observations than a statistic needs yields residue/0 = +-inf instead of 0/0 (seed C05-5)
+    let den = *rng.pick(&[4.0, 4.0, 4.0, 7.0, 10.0]);
     let mut cur = rng.range(-8, 8);
     let c = rng.range(-4, 4);
     let xs = (0..len).map(|i| if m[i] { vh::nan_at(i) } else {
-        (match style { 0 => rng.range(if small { -2 } else { -40 }, if small { 2 } else { 40 }), 1 => { cur += rng.range(0, 3); cur } 2 => c, _ => { cur += rng.range(-5, 5); cur } }) as f64 / 4.0 }).collect();
+        (match style { 0 => rng.range(if small { -2 } else { -40 }, if small { 2 } else { 40 }), 1 => { cur += rng.range(0, 3); cur } 2 => c, _ => { cur += rng.range(-5, 5); cur } }) as f64 / den }).collect();
     (xs, pat)
 }
 
